@@ -89,8 +89,53 @@ pub enum Expr {
 pub enum Form {
     Define(Def),
     Expr(Expr),
-    /// verbatim text (imports, define-syntax, ...) that the reference evaluator does not interpret
+    /// verbatim text (define-syntax, ...) that the reference evaluator does not interpret
     Raw(String),
+    /// (import set ...)
+    Import(Vec<ImportSpec>),
+}
+
+/// one import set: a library, optionally prefixed
+#[derive(Clone, Debug, PartialEq)]
+pub struct ImportSpec {
+    /// library name without parentheses, e.g. "my l1" or "scheme base"
+    pub lib: String,
+    pub prefix: Option<String>,
+}
+
+impl ImportSpec {
+    pub fn plain(lib: &str) -> ImportSpec {
+        ImportSpec { lib: lib.to_string(), prefix: None }
+    }
+    pub fn render(&self) -> String {
+        match &self.prefix {
+            Some(p) => format!("(prefix ({}) {})", self.lib, p),
+            None => format!("({})", self.lib),
+        }
+    }
+}
+
+/// a library definition of the generator
+#[derive(Clone, Debug, PartialEq)]
+pub struct LibDef {
+    pub name: String,
+    pub imports: Vec<ImportSpec>,
+    /// (internal name, external name)
+    pub exports: Vec<(String, String)>,
+    pub body: Vec<Form>,
+}
+
+impl LibDef {
+    pub fn render(&self) -> String {
+        let imports: String = self.imports.iter().map(|i| format!(" {}", i.render())).collect();
+        let exports: String = self
+            .exports
+            .iter()
+            .map(|(i, e)| if i == e { format!(" {}", i) } else { format!(" (rename {} {})", i, e) })
+            .collect();
+        let body: String = self.body.iter().map(|f| format!("\n    {}", render_form(f))).collect();
+        format!("(define-library ({})\n  (import{})\n  (export{})\n  (begin{}))\n", self.name, imports, exports, body)
+    }
 }
 
 pub fn var(n: &str) -> Expr {
@@ -401,6 +446,14 @@ pub fn form_tokens(f: &Form) -> Vec<Tok> {
         Form::Define(d) => def_tokens(d, &mut out, 0),
         Form::Expr(e) => expr_tokens(e, &mut out, 0),
         Form::Raw(s) => t(&mut out, s, 0),
+        Form::Import(specs) => {
+            t(&mut out, "(", 0);
+            t(&mut out, "import", 0);
+            for sp in specs {
+                t(&mut out, &sp.render(), 0);
+            }
+            t(&mut out, ")", 0);
+        }
     }
     out
 }
